@@ -175,8 +175,26 @@ class World:
         self.ev("advance", to=t_ms, timer=False)
 
     # -- subscribers ------------------------------------------------------------------------
-    def _mk_sub(self, who, kind, raises=False, blocks=False, hops=0):
+    def _mk_sub(self, who, kind, raises=False, blocks=False, hops=0, sends=None):
         w = self
+        counter = {"n": 0}
+
+        async def send_on_connect():
+            # like the API layer's connection subscriber: submit a request as soon as connected
+            counter["n"] += 1
+            cid = f"{who}#{counter['n']}"
+            d = dict(sends["msg"])
+            if "ac_number" in d:
+                d["ac_number"] = counter["n"] % 4
+            msg = P.build(w.proto, d)
+            pol = w._arg(sends["policy"])
+            w.ev("call", id=cid, method="send", desc=P.project(msg), retries=int(pol.max_retries), life=ms(pol.max_lifetime),
+                 by_subscriber=who)
+            try:
+                await w.objs["socket"].send(msg, pol)
+                w.ev("ret", id=cid, res="ok", val=[])
+            except Exception as ex:
+                w.ev("ret", id=cid, res=type(ex).__name__, val=[])
 
         async def behave():
             for _ in range(hops):
@@ -199,6 +217,8 @@ class World:
         elif kind == "connection":
             async def sub(*, connected):
                 w.ev("notify", who=who, connected=bool(connected))
+                if sends and connected:
+                    await send_on_connect()
                 await behave()
         else:  # update subscribers: AirTouch (str id), AC (int), zone (int)
             async def sub(ident):
@@ -294,7 +314,7 @@ class World:
         sub = self.subs.get(who)
         if sub is None:
             sub = self._mk_sub(who, kind, raises=op.get("raises", False), blocks=op.get("blocks", False),
-                               hops=op.get("hops", 0))
+                               hops=op.get("hops", 0), sends=op.get("sends"))
             self.subs[who] = sub
         tgt = self._target(op.get("target", "socket"))
         if tgt is None:
